@@ -301,7 +301,9 @@ Definition write_state (r : frow) (new : N) (h : option N) : frow :=
 
 (* File.initialize_row(requested) over an existing row *)
 Definition init_row_state (requested : N) (old : N) : N :=
-  if memN requested keep_requested && memN old keep_old then old else requested.
+  if memN requested keep_requested && memN old keep_old then old
+  else if keep_volatile_on_supply && (requested =? FS_UNDECLARED) && (old =? FS_VOLATILE) then FS_VOLATILE
+  else requested.
 
 Definition lookup_transition (cause old : N) (known : bool) : option N :=
   match find (fun t => let '((c, o, k), _) := t in (c =? cause) && (o =? old) && Bool.eqb k known)
